@@ -88,7 +88,7 @@ func bufpoolSegment(capacity, gor, ops int, salt int64) []bpEvent {
 					}
 					h := bpHeld{b: b, off: b.Len(), n: n, salt: byte(rng.Intn(256))}
 					pattern(scratch[:n], g, h.salt)
-					b.Write(scratch[:n])
+					guarded(func() { b.Write(scratch[:n]) })
 					held = append(held, h)
 					if rng.Intn(8) == 0 {
 						runtime.Gosched()
@@ -103,12 +103,18 @@ func bufpoolSegment(capacity, gor, ops int, salt int64) []bpEvent {
 				held[i] = held[len(held)-1]
 				held = held[:len(held)-1]
 				// read back what this goroutine wrote
-				ok := h.b.Len() == h.off+h.n
-				if ok {
-					pattern(scratch[:h.n], g, h.salt)
-					ok = bytes.Equal(h.b.Bytes()[h.off:], scratch[:h.n])
-				}
-				ev := bpEvent{Acq: false, G: g, Ptr: uintptr(unsafe.Pointer(h.b)), Len: h.b.Len(), Cap: h.b.Cap(), Ok: ok, Size: h.n}
+				// (a buffer that somebody else mutates meanwhile can make bytes.Buffer panic: that is "not intact")
+				ok := false
+				ev := bpEvent{Acq: false, G: g, Ptr: uintptr(unsafe.Pointer(h.b)), Size: h.n}
+				guarded(func() {
+					bs := h.b.Bytes()
+					ev.Len, ev.Cap = len(bs), h.b.Cap()
+					if len(bs) == h.off+h.n && h.off >= 0 {
+						pattern(scratch[:h.n], g, h.salt)
+						ok = bytes.Equal(bs[h.off:], scratch[:h.n])
+					}
+				})
+				ev.Ok = ok
 				ev.Seq = atomic.AddInt64(&ctr, 1) // before Put
 				lg = append(lg, ev)
 				pool.Put(h.b)
@@ -124,6 +130,12 @@ func bufpoolSegment(capacity, gor, ops int, salt int64) []bpEvent {
 	}
 	sort.Slice(all, func(i, j int) bool { return all[i].Seq < all[j].Seq })
 	return all
+}
+
+// guarded runs f; a panic inside the buffer's own methods is swallowed (the caller records "not intact").
+func guarded(f func()) {
+	defer func() { _ = recover() }()
+	f()
 }
 
 type bpLine struct {
